@@ -42,6 +42,9 @@ def _cases(ck: Check, W, R):
     for p in gen.bracket_patterns(3 if quick else 4):
         cases.append((p, W.FORCEUNIX | (W._TRANSLATE if len(p) % 2 else 0), False))
         cases.append(('a' + p + 'b', W.FORCEUNIX | W.PATHNAME | W.EXTMATCH, len(p) % 3 == 0 and all(ord(c) < 256 for c in p)))
+    for fl in (W.FORCEUNIX | W.EXTMATCH, W.FORCEUNIX | W.EXTMATCH | W._TRANSLATE | W.PATHNAME | W.DOTMATCH, W.FORCEWIN | W.PATHNAME | W.EXTMATCH | W.GLOBSTAR):
+        for p in gen.token_sequences(3 if quick else 4):
+            cases.append((p, fl, False))
     internal = [W.CASE, W.IGNORECASE, W.RAWCHARS, W.NEGATE, W.MINUSNEGATE, W.PATHNAME, W.DOTMATCH, W.EXTMATCH,
                 W.GLOBSTAR, W.BRACE, W.REALPATH, W.FOLLOW, W.SPLIT, W.MATCHBASE, W.NODIR, W.NEGATEALL, W.GLOBTILDE,
                 W.NOUNIQUE, W.NODOTDIR, W.GLOBSTARLONG, W._TRANSLATE, W._ANCHOR, W._EXTMATCHBASE, W._NOABSOLUTE,
